@@ -35,6 +35,7 @@ def run(ctx) -> None:
         for ops in ("none", "T", "T,x", "star"):
             cases.append((mn, ops))
     cmp_tags = set()
+    tagged_mnemonics = set()
     n_rewrite = 0
     case_rewrites = {}
     for mn, ops in cases:
@@ -77,6 +78,16 @@ def run(ctx) -> None:
                 continue
             n_rewrite += 1
             case_rewrites[(mn, ops)] = case_rewrites.get((mn, ops), 0) + 1
+            if mn is None:
+                # the mnemonic was abstract: which concrete mnemonics does this rewriting path stand for?
+                import re as _re2
+                for k, val, _ in p.conds:
+                    if isinstance(k, tuple) and k[0] == "in" and "<MN>" in str(k[1]) and val:
+                        # MN in (<table>): the table's elements are part of the condition's key
+                        tagged_mnemonics.update(_re2.findall(r"S'([^']+)'", str(k[2])))
+                    m2 = _re2.search(r"\('s', '([^']+)'\)", str(k)) if isinstance(k, tuple) and k[0] == "eq" and "MN" in str(k) and val else None
+                    if m2:
+                        tagged_mnemonics.add(m2.group(1))
             star = [val for k, val, _ in p.conds if isinstance(k, tuple) and k[0] == "in" and "*" in str(k[1])]
             guards_ok = ops in ("T", "T,x") and mn != "mov" and len(cmps) == 2 and all(val for _, val in cmps) and \
                 (not star or not any(star))
@@ -95,6 +106,20 @@ def run(ctx) -> None:
         if mn in ("call", "jmp") and ops in ("T", "T,x"):
             ctx.check(case_rewrites.get((mn, ops), 0) > 0, "C18.V3.direct-branches-are-tagged", construct, "no tagging path",
                       f"a direct `{mn}` whose target lies in the range is tagged on some path")
+    # V8: the mnemonics that get tagged are near branches, whose FIRST operand is the target (a far transfer - lcall,
+    # ljmp - is printed `ljmp $selector,$offset`: its first operand is the selector), and call/jmp are among them
+    NEAR = {"call", "callq", "callw", "calll", "jmp", "jmpq", "jmpw", "jmpl", "jrcxz", "jecxz", "jcxz", "loop", "loope", "loopne",
+            "loopz", "loopnz"} | {"j" + c for c in ("a", "ae", "b", "be", "c", "e", "g", "ge", "l", "le", "na", "nae", "nb", "nbe",
+                                                    "nc", "ne", "ng", "nge", "nl", "nle", "no", "np", "ns", "nz", "o", "p", "pe",
+                                                    "po", "s", "z")}
+    if not tagged_mnemonics:
+        ctx.fail("C18.V8.tagged-mnemonics-are-near-branches", "ValidAddrObserver.observe_instruction", "no mnemonic comparison seen",
+                 "the observer decides by comparing the mnemonic with a table of branch mnemonics")
+    for mn_ in sorted(tagged_mnemonics):
+        ctx.check(mn_ in NEAR, "C18.V8.tagged-mnemonics-are-near-branches", "ValidAddrObserver.observe_instruction",
+                  f"{mn_!r} is tagged by its first operand", f"`{mn_}` is a near call/jump (its first operand is the target)")
+    ctx.check({"call", "jmp"} <= tagged_mnemonics, "C18.V8.tagged-mnemonics-are-near-branches", "ValidAddrObserver.observe_instruction",
+              f"call/jmp missing from {sorted(tagged_mnemonics)}"[:120], "call and jmp are tagged")
     # V7: the verdict is computed from this observer's own range on every call
     def thunk2(I):
         res = []
